@@ -352,3 +352,8 @@ mod tests {
         assert_eq!(hash1, hash2, "Filenames should be case-insensitive");
     }
 }
+
+// verification hook (guard: cfg(kani), set only by `cargo kani`): harness module supplied by /verif
+#[cfg(kani)]
+#[path = "verif_kani_jenkins.rs"]
+mod verif_kani;
